@@ -60,7 +60,7 @@ def plan(tier, seed):
         cf = [on_bdd, on_ar, dflt][s % 3] if tier == 'thorough' \
             else [on_bdd, on_ar][s % 2]
         specs.append(dict(kind='random', seed=seed * 1000 + s, cfgs=cf,
-                          examples=800 if tier == 'thorough' else 150,
+                          examples=800 if tier == 'thorough' else 250,
                           min_len=10, max_len=45))
     return specs
 
